@@ -279,10 +279,68 @@ func rulePosAdvance(p *Prog, r *Report) {
 		}
 		return nil
 	}
-	check("parseMessageText", declared, []string{"NewASCIINode", "NewBinaryNode", "NewBooleanNode"})
-	check("parseInt", declared, []string{"NewIntNode"})
-	check("parseUint", declared, []string{"NewUintNode"})
-	check("parseFloat", declared, []string{"NewFloatNode"})
+	// by evaluation first: the item decoder on an item of every format (three
+	// elements, symbolic payload) must end at the first byte after the item
+	byEval := func(fnName string, factories []string) bool {
+		type verdict struct {
+			key, pos, text string
+			bad            bool
+		}
+		var verdicts []verdict
+		defer func() {
+			// nothing is reported unless every factory of the group was decided
+		}()
+		for _, fac := range factories {
+			key := fmt.Sprintf("%s:hsms.%s:%s", rule, fnName, fac)
+			var bad []string
+			n := 0
+			for _, f := range e5Formats {
+				if f.Factory != fac || f.Node == "ListNode" {
+					continue
+				}
+				w := int64(f.Width)
+				res, ok := decodeItemBytes(p, f.Code, 3*w, true)
+				if !ok || res.fac == "" || res.endPos.K != KInt {
+					return false
+				}
+				n++
+				if res.fac != fac {
+					bad = append(bad, fmt.Sprintf("format %s builds %s", f.Key, res.fac))
+				}
+				if want := int64(16 + 2 + 3*w); res.endPos.I.Int64() != want {
+					bad = append(bad, fmt.Sprintf("after an item of format %s with %d payload bytes the position is %s, expected %d (the first byte after the item): the next item would be read from the wrong place", f.Key, 3*w, res.endPos, want))
+				}
+			}
+			if n == 0 {
+				return false
+			}
+			pos := ""
+			if pf := p.Func("hsms", "(*parser).parseMessageText"); pf != nil {
+				pos = p.Pos(pf.Pos())
+			}
+			if len(bad) > 0 {
+				verdicts = append(verdicts, verdict{key, pos, strings.Join(firstN(bad, 3), "; "), true})
+			} else {
+				verdicts = append(verdicts, verdict{key, pos, fmt.Sprintf("evaluated on an item of each of the %d formats built by %s: the decoder ends at the first byte after the item", n, fac), false})
+			}
+		}
+		for _, v := range verdicts {
+			if v.bad {
+				r.bad(rule, v.key, v.pos, v.text)
+			} else {
+				r.ok(rule, v.key, v.pos, v.text)
+			}
+		}
+		return true
+	}
+	for _, c := range []struct {
+		fn   string
+		facs []string
+	}{{"parseMessageText", []string{"NewASCIINode", "NewBinaryNode", "NewBooleanNode"}}, {"parseInt", []string{"NewIntNode"}}, {"parseUint", []string{"NewUintNode"}}, {"parseFloat", []string{"NewFloatNode"}}} {
+		if !byEval(c.fn, c.facs) {
+			check(c.fn, declared, c.facs)
+		}
+	}
 	r.Floor(rule, 6)
 }
 
